@@ -94,6 +94,13 @@ var propEngines = map[string][]string{
 
 // Policies of the swarm: every run draws one.
 func genPolicy(r *simrt.SplitMix, steps int64) simrt.Policy {
+	p := genPolicy0(r, steps)
+	p.MapPer1024 = pick(r, 0, 256, 1024)
+
+	return p
+}
+
+func genPolicy0(r *simrt.SplitMix, steps int64) simrt.Policy {
 	switch r.Intn(6) {
 	case 0: // run-to-block with K forced preemptions
 		k := r.Intn(7)
